@@ -409,7 +409,8 @@ def judge(case, R, peer, result, exc, transport, verify=True):
     if not ok:
         R.fail("C03.record-inconsistent", f"{what}: {result!r:.400} vs accessory id {acc_id!r} ltpk {ident.ltpk.hex()} controller key {acc.controller_ltpk.hex()}")
         return
-    if PAD(acc.srp.A)[0] == 0 or PAD(acc.srp.B)[0] == 0 or PAD(acc.srp.S)[0] == 0 or acc.srp.M1[0] == 0 or acc.srp.K[0] == 0 or acc.srp.M2[0] == 0:
+    if (PAD(acc.srp.A)[0] == 0 or PAD(acc.srp.B)[0] == 0 or PAD(acc.srp.S)[0] == 0 or acc.srp.M1[0] == 0 or acc.srp.K[0] == 0 or acc.srp.M2[0] == 0
+            or bytes(acc.srp.salt)[0] == 0):
         R.nt()
         R.cls("leading-zero-hit")
     if not verify:
@@ -711,6 +712,13 @@ def enum_corpus(tier):
         for dec_ in ("ip", "ble"):
             yield {"k": 500000 + i, "code": e["code"], "acc_id": "AA:BB:CC:DD:EE:FF", "ios_id": "decc6fa3-de3e-41c9-adba-ef7409821bfc", "decode": dec_, "with_auth": bool(i % 2),
                    "fault": ["none"], "srp": {"salt": e["salt"], "a": e["a"], "b": e["b"]}, "hits": e["hits"]}
+
+
+    # the legal all-zero salt (and salts with leading zero bytes) with ordinary secrets
+    for j, salt in enumerate(["00" * 16, "00" * 15 + "01", "00" * 8 + "ab" * 8, "00" + "cd" * 15]):
+        for dec_ in ("ip", "ble"):
+            yield {"k": 600000 + j, "code": "%03d-%02d-%03d" % (j * 17 % 1000, j, j * 3), "acc_id": "AA:BB:CC:DD:EE:FF", "ios_id": "decc6fa3-de3e-41c9-adba-ef7409821bfc", "decode": dec_,
+                   "with_auth": bool(j % 2), "fault": ["none"], "srp": {"salt": salt, "a": 7001 + 2 * j, "b": 9001 + 2 * j}, "hits": ["salt0"]}
 
 
 def enum_corpus_e2e(tier):
